@@ -34,6 +34,11 @@ def one(d, extra):
     meta.setdefault("first_pass", {k: rec.get(k) for k in ("ran", "caught_by", "tier")})
     meta["latest"] = rec
     meta["confirmed"] = bool(res.get("patch_applies") and res.get("tests_ok") and res.get("demo_clean_rc") == 0 and res.get("demo_mutant_rc") not in (0, None))
+    if "by_seed" in res:
+        meta["caught_at_other_seeds"] = res["by_seed"]
+    if "--checks" in extra and "NONE" in extra:
+        json.dump(meta | {"latest": meta.get("latest")}, open(mp, "w"), indent=1) if False else None
+        return f"{os.path.basename(d)}: by_seed={res.get('by_seed')}" + ("" if all(res.get("by_seed", {}).values()) else "  <-- NOT CAUGHT AT EVERY SEED")
     meta["caught_by"] = sorted(res.get("caught_by", []))
     json.dump(meta, open(mp, "w"), indent=1)
     rt = [x for v in res.get("checks", {}).values() for x in v.get("replay_test", [])]
@@ -51,6 +56,10 @@ def main():
         extra.append("--replay-test")
     if "--tier" in args:
         extra += ["--tier", args[args.index("--tier") + 1]]
+    if "--seeds" in args:
+        extra += ["--seeds", args[args.index("--seeds") + 1]]
+    if "--no-own" in args:
+        extra += ["--checks", "NONE"]
     jobs = int(args[args.index("--jobs") + 1]) if "--jobs" in args else 6
     only = args[args.index("--only") + 1].split(",") if "--only" in args else None
     dirs = sorted(glob.glob(os.path.join(VERIF, "seeded", "*")))
